@@ -500,6 +500,18 @@ class Interp:
 
     def _for_sym(self, n, rng, env):
         """for k in range(count) with symbolic count: unrolled, iteration k guarded by k < count"""
+        if self.fork_ifs and self.merge_depth == 0:
+            # fork mode: the trip count is concrete on each path
+            cnt = ctx.concretize_int(rng.count.t if z3.is_int(rng.count.t) else z3.ToInt(rng.count.t))
+            for k in range(cnt):
+                self._bind(n.target, k, env)
+                try:
+                    env = self.block(n.body, env)
+                except _Break:
+                    break
+                except _Continue:
+                    continue
+            return env
         B = self.loop_bound
         for k in range(B):
             g = (rng.count > k).t
@@ -521,6 +533,8 @@ class Interp:
                 s = z3.simplify(c.t)
                 if z3.is_true(s): c = True
                 elif z3.is_false(s): c = False
+                elif self.fork_ifs and self.merge_depth == 0:
+                    c = bool(c)          # fork mode: the loop test is decided per path (whole-run exploration at small sizes)
                 else:
                     raise SymbolicBranch("while on a symbolic condition (drive the loop body from the harness)")
             if not c:
